@@ -53,6 +53,7 @@ def generate(rng, prop, tier):
     ops = []
     n_est = 1
     n_fits = 0
+    dropped = False
     n_ops = rng.randint(6, 14 if tier == "quick" else 30)
     p_fit = 0.12 if prop == "C17" else 0.03
     if "linear" not in d.get("tags", []) and d["name"] == "swarm":
@@ -64,7 +65,7 @@ def generate(rng, prop, tier):
         tgt = rng.randrange(n_est)
         if r < p_fit and n_fits < (2 if tier == "quick" else 5):
             n_fits += 1
-            mode = rng.choice(["real", "fail_after:%d" % rng.randint(0, 6), "early_stop:%d" % rng.randint(1, 6), "negative_probe"] + (["real"] if tier != "quick" else []))
+            mode = rng.choice(["real", "fail_after:%d" % rng.randint(0, 6), "early_stop:%d" % rng.randint(1, 6), "negative_probe", "negative_result"] + (["real"] if tier != "quick" else []))
             rows = rng.randint(3, 8)
             mats[f"f{len(mats)}"] = _matrix(rng, rows, width, rng.choice([0.5, 1.0, 3.0, 10.0]))
             ops.append({"op": "fit", "est": tgt, "X": f"f{len(mats) - 1}", "minimize": mode, "faults": [] if mode == "real" else ["minimize:" + mode.split(":")[0]]})
@@ -85,6 +86,13 @@ def generate(rng, prop, tier):
             fields = rng.sample(sorted(CONFIG_FIELDS), rng.choice([1, 1, 2, 2, 3]))
             rng.shuffle(fields)
             ops.append({"op": "set_params_config", "est": tgt, "fields": {f: rng.choice(CONFIG_FIELDS[f]) for f in fields}, "faults": []})
+        elif r < 0.89 and len(d["sensors"]) >= 2 and prop == "C17" and not dropped:
+            dropped = True
+            ops.append({"op": "drop_last_sensor", "est": 0, "faults": []})
+            if n_fits < (2 if tier == "quick" else 5) and p_fit > 0:
+                n_fits += 1
+                mats[f"f{len(mats)}"] = _matrix(rng, rng.randint(3, 6), width, 1.0)
+                ops.append({"op": "fit", "est": 0, "X": f"f{len(mats) - 1}", "minimize": rng.choice(["early_stop:2", "early_stop:3", "negative_result"]), "faults": ["minimize:early_stop", "fit_after_structure_change"]})
         elif r < 0.93:
             ops.append({"op": "set_params_unknown", "est": tgt, "name": rng.choice(["bogus", "max_dt", "process_noises", "Config", "symbolic_models", "bogus__max_dt_sec", "x__process_noise", "config__bogus", "a__b__calibration_map"]), "faults": ["unknown_param"]})
         else:
@@ -220,6 +228,15 @@ class MinimizeSeam:
                 counted(x)
             self.last_x = np.array(x, dtype=float)
             return OptimizeResult(x=x, success=True, message="fsim: stopped early", fun=0.0, nit=j)
+        if kind == "negative_result":
+            # an unconstrained optimiser may legitimately END at a point with non-positive components: the fitted estimator must
+            # still carry valid (floored) noise
+            x = np.array(x0, dtype=float)
+            counted(x)
+            x[0] = -abs(x[0]) - 0.25
+            x[-1] = 0.0
+            self.last_x = np.array(x, dtype=float)
+            return OptimizeResult(x=x, success=True, message="fsim: solution with non-positive components", fun=0.0, nit=1)
         if kind == "negative_probe":
             # what an unconstrained optimiser legitimately does: evaluate the objective at a point with a negative noise entry
             x = np.array(x0, dtype=float)
@@ -243,6 +260,7 @@ def execute(schedule) -> Result:
     config = python.Config(common_subexpression_elimination=cfg["cse"], innovation_filtering=cfg["innovation_filtering"], max_dt_sec=xf(cfg["max_dt_sec"]))
     est0 = python.SklearnEKFAdapter.Create(b["model"], b["process_noise"], b["sensor_models"], b["sensor_noises"], b["calibration_map"], config=config)
     pool = [est0]
+    defs = [json.loads(json.dumps(d))]  # the definition each pooled estimator currently holds (structure can change via set_params)
     pool_snap = {}
     mats = {}
     for k_, m in schedule["matrices"].items():
@@ -281,18 +299,21 @@ def execute(schedule) -> Result:
                     continue  # parameters changed in between (fit / set_params): a different question
                 res.stats["fault:duplicate_call"] += 1
                 with contextlib.redirect_stdout(io.StringIO()):
-                    again = _read_op(pool[ei], k2, mats[xn], explain)
+                    d_ = defs[ei]
+                    again = _read_op(pool[ei], k2, _cut(mats[xn], len(d_["control"]) + sum(len(sd["readings"]) for sd in d_["sensors"].values())), explain)
                 if _bytes(again) != val:
                     res.add("C16", "repeatability", f"C16:py:repeatability:{k2}", i, f"repeating {k2} with the same matrix and unchanged parameters returns identical values", "values differ")
                 res.ops += 1
                 continue
             est = pool[op["est"]] if op["est"] < len(pool) else pool[0]
             ei = op["est"] if op["est"] < len(pool) else 0
+            d = defs[ei]
+            width_ = len(d["control"]) + sum(len(sd["readings"]) for sd in d["sensors"].values())
             before = snapshot(est)
             for f in op["faults"]:
                 res.stats["fault:" + f] += 1
             if kind in ("transform", "mahalanobis", "score"):
-                X = mats[op["X"]]
+                X = _cut(mats[op["X"]], width_)
                 # domain guard first: the exported filter run by hand must get through this data without raising and stay
                 # bounded (a nonlinear swarm model can overflow on bounded data; that is the filter's business, C04/C05/C09)
                 try:
@@ -334,6 +355,7 @@ def execute(schedule) -> Result:
                 if snapshot(est) != before:
                     res.add("C16", "params_changed", "C16:py:params_changed:clone", i, "clone leaves the original's parameters unchanged", _diffkeys(before, snapshot(est)))
                 pool.append(c)
+                defs.append(json.loads(json.dumps(d)))
                 res.abstract.append("clone")
             elif kind == "set_params_roundtrip":
                 est.set_params(**est.get_params())
@@ -365,8 +387,20 @@ def execute(schedule) -> Result:
                 if snapshot(est) != before:
                     res.add("C17", "unknown_changed_params", "C17:py:unknown_changed_params", i, "a refused set_params changes nothing", _diffkeys(before, snapshot(est)))
                 res.abstract.append("unknown")
+            elif kind == "drop_last_sensor":
+                # structural change through set_params: the sensor that is last in key order disappears from models and noises
+                if len(d["sensors"]) < 2:
+                    continue
+                gone = sorted(d["sensors"])[-1]
+                p_ = est.get_params()
+                est.set_params(sensor_models={k_: v for k_, v in p_["sensor_models"].items() if str(k_) != gone},
+                               sensor_noises={k_: v for k_, v in p_["sensor_noises"].items() if str(k_) != gone})
+                defs[ei] = json.loads(json.dumps(d))
+                del defs[ei]["sensors"][gone]
+                res.stats["fault:structure_changed_by_set_params"] += 1
+                res.abstract.append("drop_sensor")
             elif kind == "fit":
-                X = mats[op["X"]]
+                X = _cut(mats[op["X"]], width_)
                 seam.mode, seam.evaluations = op["minimize"], 0
                 outcome = None
                 try:
@@ -416,6 +450,13 @@ def hash_s(s):
     import hashlib
 
     return hashlib.sha256(s.encode()).hexdigest()[:12]
+
+
+def _cut(X, width):
+    """first `width` columns of a data matrix (ndarray or list of rows)"""
+    if isinstance(X, np.ndarray):
+        return X[:, :width] if X.shape[1] > width else X
+    return [row[:width] for row in X]
 
 
 def _read_op(est, kind, X, explain):
